@@ -32,6 +32,10 @@ CHECKS = {
          "Every document of the bounded family is rendered with its markers/options and compared with the rendering of the source from which the generator deleted exactly the named whitespace by hand; spaceless is compared with a direct reference. Exhaustive within the whitespace-run alphabet and construct set.",
          "The hand-stripping rules are those of the property text (DESIGN.md Appendix A.7); first render of a fresh compile only (repeated renders are C04).",
          "DESIGN.md §3 C15"),
+ "C09": ("bounded-exhaustive generation of control-flow programs (all option subsets, all branch-presence combinations, all data sequences up to a length, nesting depth <=3) compared with a reference interpreter of the generated tree",
+         "Every program of the generated families is rendered on a fresh compile by the real engine and compared byte for byte with an independent interpreter of the same tree written from the property text; forloop fields are printed at every iteration and nesting depth, so off-by-one and boundary faults show for some enumerated length.",
+         "Reference semantics: DESIGN.md Appendix A.1/A.4. Programs the property leaves open are counted, not judged.",
+         "DESIGN.md §3 C09"),
 }
 
 NOT_YET = {}
